@@ -534,13 +534,12 @@ Proof.
     destruct (255 <? length a)%nat; [left; reflexivity|].
     destruct (forallb xml_ok a); right; eexists; split; [apply tag_pres_text|reflexivity|apply tag_pres_text|reflexivity].
   - destruct v; try (left; reflexivity).
+    destruct (to_utc_naive d); [|left; reflexivity].
     right; eexists; split; [apply tag_pres_dt|reflexivity].
   - assert (p = Revision) by (destruct p; try discriminate; reflexivity). subst p.
     destruct v; try (left; reflexivity).
-    + destruct (z <? 1)%Z; [left; reflexivity|].
-      destruct (py_str_int z); right; eexists; split; [apply tag_pres_text|reflexivity|apply tag_pres_same|reflexivity].
-    + destruct b; [|left; reflexivity].
-      right; eexists; split; [apply tag_pres_text|reflexivity].
+    destruct (z <? 1)%Z; [left; reflexivity|].
+    destruct (py_str_int z); right; eexists; split; [apply tag_pres_text|reflexivity|apply tag_pres_same|reflexivity].
 Qed.
 
 Lemma get_prop_find st st' q :
@@ -595,29 +594,63 @@ Proof.
   split; auto. apply in_py_range_iff; auto.
 Qed.
 
-Lemma get_after_set_dt p d st : kind_of p = KDate ->
-  get_prop (fst (set_prop p (VDt d) st)) p =
-  match parse_w3cdtf (strftime (p_dt d)) with
-  | Ok t => Ok (ODt (Some t))
-  | Err ValueErr => Ok (ODt None)
-  | Err e => Err e
-  end.
+(** The UTC wall clock of the value assigned: a naive value as it is, an aware value minus
+    its utcoffset. *)
+Definition utc_wall (d : pydt) : datetime :=
+  match p_tz d with None => p_dt d | Some o => add_seconds (p_dt d) (- o) end.
+
+Lemma utc_wall_valid d : valid_pydt d = true -> valid_datetime (utc_wall d) = true.
 Proof.
-  intros K. unfold set_prop. rewrite K. unfold set_datetime. cbn [fst].
-  unfold get_prop. rewrite K. unfold get_datetime.
-  rewrite find_upd_same by apply tag_pres_dt. cbn [c_text].
-  destruct (parse_w3cdtf (strftime (p_dt d))) as [t|[]]; reflexivity.
+  intros V. destruct (valid_pydt_parts d V) as [Vt _]. unfold utc_wall.
+  destruct (p_tz d); [apply add_seconds_valid|exact Vt].
+Qed.
+
+Lemma utc_wall_naive d : p_tz d = None -> utc_wall d = p_dt d.
+Proof. intros E. unfold utc_wall. rewrite E. reflexivity. Qed.
+
+Lemma to_utc_naive_spec d : valid_pydt d = true ->
+  to_utc_naive d = if in_py_range (utc_wall d) then Ok (utc_wall d) else Err OverflowErr.
+Proof.
+  intros V. destruct (valid_pydt_parts d V) as [_ Yr]. unfold to_utc_naive, utc_wall.
+  destruct (p_tz d); [reflexivity|]. rewrite (proj2 (in_py_range_iff _) Yr). reflexivity.
 Qed.
 
 Lemma date_roundtrip p d st : kind_of p = KDate -> valid_pydt d = true ->
-  (1000 <= dt_year (p_dt d))%Z ->
+  in_py_range (utc_wall d) = true ->
+  snd (set_prop p (VDt d) st) = Ok tt /\
+  get_prop (fst (set_prop p (VDt d) st)) p = Ok (ODt (Some (utc_wall d))).
+Proof.
+  intros K V R. pose proof (utc_wall_valid d V) as Vt.
+  unfold set_prop. rewrite K. unfold set_datetime. rewrite to_utc_naive_spec, R by auto.
+  split; [reflexivity|]. cbn [fst].
+  unfold get_prop. rewrite K. unfold get_datetime.
+  rewrite find_upd_same by apply tag_pres_dt. cbn [c_text].
+  rewrite parse_fmt by (auto; apply in_py_range_iff; auto). reflexivity.
+Qed.
+
+(** Naive datetimes: every year 1..9999. *)
+Lemma date_roundtrip_naive p d st : kind_of p = KDate -> valid_pydt d = true -> p_tz d = None ->
   snd (set_prop p (VDt d) st) = Ok tt /\
   get_prop (fst (set_prop p (VDt d) st)) p = Ok (ODt (Some (p_dt d))).
 Proof.
-  intros K V Y. destruct (valid_pydt_parts d V) as [Vt Yr].
-  split.
-  - unfold set_prop. rewrite K. reflexivity.
-  - rewrite get_after_set_dt by auto. rewrite parse_strftime by (auto; lia). reflexivity.
+  intros K V N. destruct (valid_pydt_parts d V) as [_ Yr].
+  rewrite <- (utc_wall_naive d N). apply date_roundtrip; auto.
+  rewrite utc_wall_naive by auto. apply in_py_range_iff; auto.
+Qed.
+
+(** Aware datetimes: the equivalent UTC wall clock, characterised by its instant. *)
+Lemma date_roundtrip_aware p d o st : kind_of p = KDate -> valid_pydt d = true -> p_tz d = Some o ->
+  let utc := add_seconds (p_dt d) (- o) in
+  to_seconds utc = (to_seconds (p_dt d) - o)%Z /\
+  (in_py_range utc = true ->
+     snd (set_prop p (VDt d) st) = Ok tt /\
+     get_prop (fst (set_prop p (VDt d) st)) p = Ok (ODt (Some utc))) /\
+  (in_py_range utc = false -> set_prop p (VDt d) st = (st, Err OverflowErr)).
+Proof.
+  intros K V T utc. assert (E : utc_wall d = utc) by (unfold utc_wall; rewrite T; reflexivity).
+  split; [subst utc; rewrite add_seconds_spec; lia|]. split; intros R.
+  - rewrite <- E. apply date_roundtrip; auto. rewrite E; auto.
+  - unfold set_prop. rewrite K. unfold set_datetime. rewrite to_utc_naive_spec, E, R by auto. reflexivity.
 Qed.
 
 Lemma date_type p v st : kind_of p = KDate -> (forall d, v <> VDt d) ->
@@ -662,7 +695,6 @@ Qed.
 Definition rev_acceptable (v : pyv) : bool :=
   match v with
   | VInt z => (1 <=? z)%Z
-  | VBool b => b
   | _ => false
   end.
 
@@ -671,8 +703,7 @@ Lemma revision_reject v st : rev_acceptable v = false ->
 Proof.
   unfold set_prop. cbn [kind_of]. unfold set_revision, rev_acceptable.
   destruct v; try reflexivity.
-  - intros H. destruct (Z.ltb_spec z 1); [reflexivity|lia].
-  - intros ->. reflexivity.
+  intros H. destruct (Z.ltb_spec z 1); [reflexivity|lia].
 Qed.
 
 Lemma revision_read st :
@@ -697,12 +728,12 @@ Definition run (ops : list op) (st : cpstate) : cpstate :=
 Definition goodb (o : op) : bool :=
   match kind_of (fst o), snd o with
   | KText, VStr s => (length s <=? 255)%nat && forallb xml_ok s
-  | KDate, VDt d => valid_pydt d && (1000 <=? dt_year (p_dt d))%Z
+  | KDate, VDt d => valid_pydt d && in_py_range (utc_wall d)
   | KRev, VInt z => (1 <=? z)%Z && (dec_len z <=? 4300)%N
   | _, _ => false
   end.
 
-(** ... and assignments it says must be refused. *)
+(** ... assignments it says must be refused with ValueError ... *)
 Definition rejb (o : op) : bool :=
   match kind_of (fst o), snd o with
   | KText, VStr s => (255 <? length s)%nat
@@ -712,10 +743,17 @@ Definition rejb (o : op) : bool :=
   | _, _ => false
   end.
 
+(** ... and aware datetimes whose UTC time lies outside years 1..9999 (OverflowError). *)
+Definition ovfb (o : op) : bool :=
+  match kind_of (fst o), snd o with
+  | KDate, VDt d => valid_pydt d && negb (in_py_range (utc_wall d))
+  | _, _ => false
+  end.
+
 Definition reading_of (v : pyv) : outv :=
   match v with
   | VStr s => OStr s
-  | VDt d => ODt (Some (p_dt d))
+  | VDt d => ODt (Some (utc_wall d))
   | VInt z => OInt z
   | _ => OStr []
   end.
@@ -728,7 +766,7 @@ Proof.
   destruct (kind_of p) eqn:K; destruct v; try discriminate; intros H;
     apply andb_true_iff in H as [H1 H2]; cbn [reading_of].
   - apply text_roundtrip; auto. apply Nat.leb_le; auto.
-  - apply date_roundtrip; auto. lia.
+  - apply date_roundtrip; auto.
   - assert (p = Revision) by (destruct p; try discriminate; reflexivity). subst p.
     apply revision_roundtrip; lia.
 Qed.
@@ -744,12 +782,28 @@ Proof.
     intros H. apply revision_reject. apply negb_true_iff; auto.
 Qed.
 
+Lemma ovf_unchanged o st : ovfb o = true ->
+  set_prop (fst o) (snd o) st = (st, Err OverflowErr).
+Proof.
+  destruct o as [p v]. unfold ovfb. cbn [fst snd].
+  destruct (kind_of p) eqn:K; try discriminate. destruct v; try discriminate.
+  intros H. apply andb_true_iff in H as [V R]. apply negb_true_iff in R.
+  unfold set_prop. rewrite K. unfold set_datetime. rewrite to_utc_naive_spec, R by auto. reflexivity.
+Qed.
+
 (** The value of the last accepted assignment to [q], if any. *)
 Definition last_good (ops : list op) (q : prop) : option pyv :=
   fold_left (fun acc o => if goodb o && prop_eqb (fst o) q then Some (snd o) else acc) ops None.
 
+Lemma ovf_not_good o : ovfb o = true -> goodb o = false.
+Proof.
+  destruct o as [p v]. unfold ovfb, goodb. cbn [fst snd].
+  destruct (kind_of p); try discriminate. destruct v; try discriminate.
+  intros H. apply andb_true_iff in H as [V R]. apply negb_true_iff in R. rewrite V, R. reflexivity.
+Qed.
+
 Lemma history ops : forall st q,
-  Forall (fun o => goodb o || rejb o = true) ops ->
+  Forall (fun o => goodb o || rejb o || ovfb o = true) ops ->
   get_prop (run ops st) q =
   match last_good ops q with Some v => Ok (reading_of v) | None => get_prop st q end.
 Proof.
@@ -763,7 +817,9 @@ Proof.
     + cbn [andb]. destruct (prop_eqb (fst o) q) eqn:E.
       * apply prop_eqb_eq in E. subst q. apply good_set_get; auto.
       * rewrite frame; auto. intros Heq. rewrite Heq, prop_eqb_refl in E. discriminate.
-    + cbn [orb andb] in *. rewrite rej_unchanged by auto. cbn [fst]. exact IH.
+    + cbn [orb andb] in *. apply orb_true_iff in Ho as [Ho|Ho].
+      * rewrite rej_unchanged by auto. cbn [fst]. exact IH.
+      * rewrite ovf_unchanged by auto. cbn [fst]. exact IH.
 Qed.
 
 (** ---- validity ---- *)
@@ -853,11 +909,11 @@ Proof.
   destruct (Z.eqb_spec (Z.of_N (Z.to_N y)) 0); [lia|]. f_equal. f_equal. lia.
 Qed.
 
-Lemma xsd_dateTime_strftime t : valid_datetime t = true -> (1000 <= dt_year t <= 9999)%Z ->
-  xsd_dateTime (strftime t) = true.
+Lemma xsd_dateTime_fmt t : valid_datetime t = true -> (1 <= dt_year t <= 9999)%Z ->
+  xsd_dateTime (fmt_dt t) = true.
 Proof.
   intros V Y. pose proof (valid_dt_bounds t V) as [Bm [Bd [Bh [Bmi Bs]]]].
-  rewrite strftime_full by auto. unfold xsd_dateTime.
+  rewrite fmt_dt_full. unfold xsd_dateTime.
   assert (E : w3c_full t ++ [c_Z] =
     (digit_char (dt_year t / 1000) ::
        ([digit_char (dt_year t / 100 mod 10); digit_char (dt_year t / 10 mod 10); digit_char (dt_year t mod 10)] ++
@@ -879,20 +935,19 @@ Lemma child_ok_text p s b : kind_of p <> KDate -> child_ok (mkChild (TProp p) s 
 Proof. destruct p; cbn; try reflexivity; congruence. Qed.
 
 Lemma child_ok_date p t b : kind_of p = KDate -> valid_datetime t = true ->
-  (1000 <= dt_year t <= 9999)%Z ->
-  child_ok (mkChild (TProp p) (strftime t) (b || needs_xsi p)) = true.
+  (1 <= dt_year t <= 9999)%Z ->
+  child_ok (mkChild (TProp p) (fmt_dt t) (b || needs_xsi p)) = true.
 Proof.
-  intros K V Y. pose proof (xsd_dateTime_strftime t V Y) as X.
+  intros K V Y. pose proof (xsd_dateTime_fmt t V Y) as X.
   destruct p; try discriminate; unfold child_ok; cbn [c_tag c_text c_xsi needs_xsi].
   - rewrite orb_true_r. unfold w3cdtf_ok. rewrite X. apply orb_true_r.
   - exact X.
   - rewrite orb_true_r. unfold w3cdtf_ok. rewrite X. apply orb_true_r.
 Qed.
 
-(** Every assignment keeps a valid part valid, accepted or not, except a datetime whose
-    year is below 1000. *)
+(** Every assignment of any value keeps a valid part valid, accepted or not. *)
 Lemma valid_step p v st : valid_cp st = true ->
-  (forall d, v = VDt d -> kind_of p = KDate -> valid_pydt d = true /\ (1000 <= dt_year (p_dt d))%Z) ->
+  (forall d, v = VDt d -> valid_pydt d = true) ->
   valid_cp (fst (set_prop p v st)) = true.
 Proof.
   intros V G. unfold set_prop, set_text, set_datetime, set_revision.
@@ -900,23 +955,21 @@ Proof.
   - destruct (py_str v); [|exact V]. destruct (255 <? length a)%nat; [exact V|].
     destruct (forallb xml_ok a); cbn [fst]; apply valid_upd; auto using tag_pres_text;
       intros c Hc; unfold set_c_text; rewrite Hc; apply child_ok_text; congruence.
-  - destruct v; try exact V. cbn [fst]. destruct (G d eq_refl eq_refl) as [Vd Y].
-    destruct (valid_pydt_parts d Vd) as [Vt Yr].
+  - destruct v; try exact V. pose proof (G d eq_refl) as Vd.
+    rewrite to_utc_naive_spec by auto.
+    destruct (in_py_range (utc_wall d)) eqn:R; [|exact V]. cbn [fst].
     apply valid_upd; auto using tag_pres_dt. intros c Hc. rewrite Hc.
-    apply child_ok_date; auto. lia.
+    apply child_ok_date; auto; [apply utc_wall_valid; auto|apply in_py_range_iff; auto].
   - assert (p = Revision) by (destruct p; try discriminate; reflexivity). subst p.
     destruct v; try exact V.
-    + destruct (z <? 1)%Z; [exact V|].
-      destruct (py_str_int z); cbn [fst]; apply valid_upd; auto using tag_pres_text, tag_pres_same;
-        intros c Hc; unfold set_c_text, same_child; [rewrite Hc; reflexivity|].
-      unfold child_ok. rewrite Hc. reflexivity.
-    + destruct b; [|exact V]. cbn [fst]. apply valid_upd; auto using tag_pres_text.
-      intros c Hc. unfold set_c_text. rewrite Hc. reflexivity.
+    destruct (z <? 1)%Z; [exact V|].
+    destruct (py_str_int z); cbn [fst]; apply valid_upd; auto using tag_pres_text, tag_pres_same;
+      intros c Hc; unfold set_c_text, same_child; [rewrite Hc; reflexivity|].
+    unfold child_ok. rewrite Hc. reflexivity.
 Qed.
 
-Definition date_guard (o : op) : Prop :=
-  forall d, snd o = VDt d -> kind_of (fst o) = KDate ->
-            valid_pydt d = true /\ (1000 <= dt_year (p_dt d))%Z.
+(** The only side condition: datetime values are genuine datetimes. *)
+Definition date_guard (o : op) : Prop := forall d, snd o = VDt d -> valid_pydt d = true.
 
 Lemma valid_history ops : forall st, valid_cp st = true -> Forall date_guard ops ->
   valid_cp (run ops st) = true.
@@ -928,7 +981,7 @@ Qed.
 
 (** ---- default part ---- *)
 
-Lemma default_part_readings now : valid_pydt now = true -> (1000 <= dt_year (p_dt now))%Z ->
+Lemma default_part_readings now : valid_pydt now = true -> p_tz now = None ->
   forall q, get_prop (default_part now) q =
     match q with
     | Title => Ok (OStr s_default_title)
@@ -939,30 +992,33 @@ Lemma default_part_readings now : valid_pydt now = true -> (1000 <= dt_year (p_d
     | _ => Ok (OStr [])
     end.
 Proof.
-  intros V Y q.
+  intros V N q. destruct (valid_pydt_parts now V) as [_ Yr].
   change (default_part now) with
     (run [(Title, VStr s_default_title); (LastModifiedBy, VStr s_python_pptx);
           (Revision, VInt 1); (Modified, VDt now)] []).
   assert (G : goodb (Modified, VDt now) = true).
-  { unfold goodb. cbn [fst snd kind_of]. rewrite V. lia. }
+  { unfold goodb. cbn [fst snd kind_of]. rewrite V, utc_wall_naive by auto.
+    rewrite (proj2 (in_py_range_iff _) Yr). reflexivity. }
   rewrite history.
-  - unfold last_good. cbn [fold_left]. rewrite G. destruct q; reflexivity.
+  - unfold last_good. cbn [fold_left]. rewrite G.
+    destruct q; try reflexivity.
+    transitivity (@Ok outv (reading_of (VDt now))); [reflexivity|].
+    cbn [reading_of]. rewrite utc_wall_naive by auto. reflexivity.
   - repeat constructor; try reflexivity. rewrite G. reflexivity.
 Qed.
 
-Lemma default_part_valid now : valid_pydt now = true -> (1000 <= dt_year (p_dt now))%Z ->
-  valid_cp (default_part now) = true.
+Lemma default_part_valid now : valid_pydt now = true -> valid_cp (default_part now) = true.
 Proof.
-  intros V Y.
+  intros V.
   change (default_part now) with
     (run [(Title, VStr s_default_title); (LastModifiedBy, VStr s_python_pptx);
           (Revision, VInt 1); (Modified, VDt now)] []).
   apply valid_history; [reflexivity|].
-  apply Forall_cons; [intros d E K; discriminate|].
-  apply Forall_cons; [intros d E K; discriminate|].
-  apply Forall_cons; [intros d E K; discriminate|].
+  apply Forall_cons; [intros d E; discriminate|].
+  apply Forall_cons; [intros d E; discriminate|].
+  apply Forall_cons; [intros d E; discriminate|].
   apply Forall_cons; [|apply Forall_nil].
-  intros d E K. cbn [snd] in E. inversion E; subst. auto.
+  intros d E. cbn [snd] in E. inversion E; subst. auto.
 Qed.
 
 (** ---- reading stored text ---- *)
@@ -983,26 +1039,26 @@ Proof.
   destruct (parse_w3cdtf s) as [t|[]]; reflexivity.
 Qed.
 
-Lemma read_offset st p t neg hh mm :
-  kind_of p = KDate -> stored st p (w3c_full t ++ off_str neg hh mm) ->
-  valid_datetime t = true -> (1 <= dt_year t <= 9999)%Z -> (0 <= hh <= 99)%Z -> (0 <= mm <= 99)%Z ->
-  let utc := add_seconds t (- off_seconds neg hh mm) in
-  to_seconds utc = (to_seconds t - off_seconds neg hh mm)%Z /\
+(** Time of any granularity with any zone designator: the equivalent UTC wall clock. *)
+Lemma read_time st p g t z :
+  kind_of p = KDate -> stored st p (time_text g t ++ zone_str z) ->
+  valid_datetime t = true -> (1 <= dt_year t <= 9999)%Z -> form_ok g t -> zone_ok z ->
+  let utc := add_seconds t (- zone_seconds z) in
+  to_seconds utc = (to_seconds t - zone_seconds z)%Z /\
   valid_datetime utc = true /\
   get_prop st p = if in_py_range utc then Ok (ODt (Some utc)) else Err OverflowErr.
 Proof.
-  intros K S V Y H M utc. split; [|split].
+  intros K S V Y F Z utc. split; [|split].
   - subst utc. rewrite add_seconds_spec. lia.
   - apply add_seconds_valid.
-  - rewrite (read_date st p _ K S). rewrite parse_full_offset by auto. cbv zeta.
-    fold utc. destruct (in_py_range utc); reflexivity.
+  - rewrite (read_date st p _ K S). rewrite parse_time by auto.
+    destruct z as [| |neg hh mm]; cbn [utc_of zone_seconds] in *.
+    + subst utc. change (- 0)%Z with 0%Z. rewrite add_seconds_0 by auto.
+      rewrite (proj2 (in_py_range_iff t) Y). reflexivity.
+    + subst utc. change (- 0)%Z with 0%Z. rewrite add_seconds_0 by auto.
+      rewrite (proj2 (in_py_range_iff t) Y). reflexivity.
+    + fold utc. destruct (in_py_range utc); reflexivity.
 Qed.
-
-Lemma read_full st p t z :
-  kind_of p = KDate -> stored st p (w3c_full t ++ z) -> length z <> 6%nat ->
-  valid_datetime t = true -> (1 <= dt_year t <= 9999)%Z ->
-  get_prop st p = Ok (ODt (Some t)).
-Proof. intros K S L V Y. rewrite (read_date st p _ K S), parse_full_other by auto. reflexivity. Qed.
 
 Lemma read_date_only st p y m d :
   kind_of p = KDate -> stored st p (w3c_date y m d) -> valid_date (y, m, d) = true ->
@@ -1019,95 +1075,7 @@ Lemma read_year st p y :
   (1 <= y <= 9999)%Z -> get_prop st p = Ok (ODt (Some (mkDT y 1 1 0 0 0))).
 Proof. intros K S Y. rewrite (read_date st p _ K S), parse_y by auto. reflexivity. Qed.
 
-(** ---- package level ---- *)
-
-Lemma core_properties_present st now : core_properties (Some st) now = (Some st, st).
-Proof. reflexivity. Qed.
-
-Lemma core_properties_absent now :
-  core_properties None now = (Some (default_part now), default_part now).
-Proof. reflexivity. Qed.
-
-(** ---- witnesses against the statement ---- *)
-
-Definition dt999 : pydt := mkPydt (mkDT 999 1 2 3 4 5) 0 None.
-
-Lemma date_lt1000_witness :
-  valid_pydt dt999 = true /\
-  snd (set_prop Created (VDt dt999) []) = Ok tt /\
-  get_prop (fst (set_prop Created (VDt dt999) [])) Created = Ok (ODt None) /\
-  valid_cp (fst (set_prop Created (VDt dt999) [])) = false.
-Proof. vm_compute. repeat split. Qed.
-
-(** 2020-02-29T23:59:59+05:00 *)
-Definition dt_aware : pydt := mkPydt (mkDT 2020 2 29 23 59 59) 0 (Some 18000%Z).
-
-Lemma date_tzaware_witness :
-  valid_pydt dt_aware = true /\
-  get_prop (fst (set_prop Created (VDt dt_aware) [])) Created = Ok (ODt (Some (mkDT 2020 2 29 23 59 59))) /\
-  add_seconds (p_dt dt_aware) (-18000) = mkDT 2020 2 29 18 59 59.
-Proof. vm_compute. repeat split. Qed.
-
-Lemma revision_bool_witness :
-  set_prop Revision (VBool true) [] = ([mkChild (TProp Revision) s_True false], Ok tt) /\
-  get_prop (fst (set_prop Revision (VBool true) [])) Revision = Ok (OInt 0).
-Proof. vm_compute. split; reflexivity. Qed.
-
-Definition t2003 : datetime := mkDT 2003 12 31 10 14 55.
-
-(** 2003-12-31T10:14+01:00 : hours and minutes with a zone designator (a W3CDTF granularity) *)
-Lemma minutes_granularity_witness :
-  parse_w3cdtf (w3c_date 2003 12 31 ++ c_T :: pad2 10 ++ c_colon :: pad2 14 ++ off_str false 1 0) = Err ValueErr.
-Proof. vm_compute. reflexivity. Qed.
-
-(** 2003-12-31T10:14:55.5+01:00 : the offset is dropped *)
-Lemma fraction_offset_witness :
-  parse_w3cdtf (w3c_full t2003 ++ [46; 53]%N ++ off_str false 1 0) = Ok t2003 /\
-  add_seconds t2003 (- off_seconds false 1 0) = mkDT 2003 12 31 9 14 55.
-Proof. vm_compute. split; reflexivity. Qed.
-
-(** 2003-12-31T10:14:55.1234Z : a fraction and Z making six characters *)
-Lemma fraction_z_witness :
-  parse_w3cdtf (w3c_full t2003 ++ [46; 49; 50; 51; 52; 90]%N) = Err ValueErr.
-Proof. vm_compute. reflexivity. Qed.
-
-(** 0001-01-01T00:00:00+00:01 : the UTC time is before year 1 *)
-Lemma offset_overflow_witness :
-  parse_w3cdtf (w3c_full (mkDT 1 1 1 0 0 0) ++ off_str false 0 1) = Err OverflowErr.
-Proof. vm_compute. reflexivity. Qed.
-
-(** Refused text (a code point lxml rejects) erases the previous value. *)
-Lemma nonxml_erases_witness :
-  let st := fst (set_prop Title (VStr [97]%N) []) in
-  set_prop Title (VStr [65535]%N) st = ([mkChild (TProp Title) [] false], Err ValueErr).
-Proof. vm_compute. reflexivity. Qed.
-
-(** ---- statements in the form used by props/C18.v ---- *)
-
-Lemma date_lt1000_refuted : exists d : pydt,
-  valid_pydt d = true /\ (dt_year (p_dt d) < 1000)%Z /\
-  snd (set_prop Created (VDt d) []) = Ok tt /\
-  get_prop (fst (set_prop Created (VDt d) [])) Created = Ok (ODt None) /\
-  valid_cp (fst (set_prop Created (VDt d) [])) = false.
-Proof.
-  exists dt999. destruct date_lt1000_witness as [A [B [C D]]].
-  repeat split; auto.
-Qed.
-
-Lemma date_tzaware_refuted : exists (d : pydt) (o : Z),
-  valid_pydt d = true /\ p_tz d = Some o /\ o <> 0%Z /\
-  get_prop (fst (set_prop Created (VDt d) [])) Created = Ok (ODt (Some (p_dt d))) /\
-  add_seconds (p_dt d) (- o) <> p_dt d.
-Proof.
-  exists dt_aware, 18000%Z. destruct date_tzaware_witness as [A [B C]].
-  split; [exact A|]. split; [reflexivity|]. split; [discriminate|]. split; [exact B|].
-  intros H. vm_compute in H. discriminate.
-Qed.
-
 Lemma granularity st p : kind_of p = KDate ->
-  (forall t z, stored st p (w3c_full t ++ z) -> length z <> 6%nat ->
-     valid_datetime t = true -> (1 <= dt_year t <= 9999)%Z ->
-     get_prop st p = Ok (ODt (Some t))) /\
   (forall y m d, stored st p (w3c_date y m d) -> valid_date (y, m, d) = true -> (1 <= y <= 9999)%Z ->
      get_prop st p = Ok (ODt (Some (mkDT y m d 0 0 0)))) /\
   (forall y m, stored st p (w3c_ym y m) -> (1 <= m <= 12)%Z -> (1 <= y <= 9999)%Z ->
@@ -1116,30 +1084,17 @@ Lemma granularity st p : kind_of p = KDate ->
      get_prop st p = Ok (ODt (Some (mkDT y 1 1 0 0 0)))).
 Proof.
   intros K. repeat split; intros.
-  - eapply read_full; eauto.
   - eapply read_date_only; eauto.
   - eapply read_year_month; eauto.
   - eapply read_year; eauto.
 Qed.
 
-Lemma offset_fraction_refuted : exists (t : datetime) (frac : str),
-  parse_w3cdtf (w3c_full t ++ frac ++ off_str false 1 0) = Ok t /\
-  add_seconds t (- off_seconds false 1 0) <> t.
-Proof.
-  exists t2003, [46; 53]%N. destruct fraction_offset_witness as [A B].
-  split; auto. rewrite B. discriminate.
-Qed.
-
-Lemma revision_bool_refuted :
-  snd (set_prop Revision (VBool true) []) = Ok tt /\
-  get_text (fst (set_prop Revision (VBool true) [])) Revision = s_True /\
-  get_prop (fst (set_prop Revision (VBool true) [])) Revision = Ok (OInt 0).
-Proof. destruct revision_bool_witness as [A B]. rewrite A. repeat split; auto. Qed.
+(** ---- package level ---- *)
 
 Lemma default_part_spec now :
   (forall st, core_properties (Some st) now = (Some st, st)) /\
   core_properties None now = (Some (default_part now), default_part now) /\
-  (valid_pydt now = true -> (1000 <= dt_year (p_dt now))%Z ->
+  (valid_pydt now = true -> p_tz now = None ->
    valid_cp (default_part now) = true /\
    forall q, get_prop (default_part now) q =
      match q with
@@ -1152,8 +1107,68 @@ Lemma default_part_spec now :
      end).
 Proof.
   split; [reflexivity|]. split; [reflexivity|].
-  intros V Y. split; [apply default_part_valid|apply default_part_readings]; auto.
+  intros V N. split; [apply default_part_valid|apply default_part_readings]; auto.
 Qed.
+
+(** ---- regression: the inputs on which the code failed before it was repaired ---- *)
+
+Definition dt999 : pydt := mkPydt (mkDT 999 1 2 3 4 5) 0 None.
+
+Lemma regress_year_999 :
+  valid_pydt dt999 = true /\
+  snd (set_prop Created (VDt dt999) []) = Ok tt /\
+  get_prop (fst (set_prop Created (VDt dt999) [])) Created = Ok (ODt (Some (mkDT 999 1 2 3 4 5))) /\
+  valid_cp (fst (set_prop Created (VDt dt999) [])) = true.
+Proof. vm_compute. repeat split. Qed.
+
+(** 2020-02-29T23:59:59+05:00 *)
+Definition dt_aware : pydt := mkPydt (mkDT 2020 2 29 23 59 59) 0 (Some 18000%Z).
+
+Lemma regress_aware :
+  valid_pydt dt_aware = true /\
+  get_prop (fst (set_prop Created (VDt dt_aware) [])) Created = Ok (ODt (Some (mkDT 2020 2 29 18 59 59))).
+Proof. vm_compute. repeat split. Qed.
+
+Lemma regress_revision_true : set_prop Revision (VBool true) [] = ([], Err ValueErr).
+Proof. reflexivity. Qed.
+
+Definition t2003 : datetime := mkDT 2003 12 31 10 14 55.
+
+(** 2003-12-31T10:14+01:00 *)
+Lemma regress_minutes :
+  parse_w3cdtf (w3c_date 2003 12 31 ++ c_T :: pad2 10 ++ c_colon :: pad2 14 ++ off_str false 1 0) =
+  Ok (mkDT 2003 12 31 9 14 0).
+Proof. vm_compute. reflexivity. Qed.
+
+(** 2003-12-31T10:14:55.5+01:00 *)
+Lemma regress_fraction_offset :
+  parse_w3cdtf (w3c_full t2003 ++ [46; 53]%N ++ off_str false 1 0) = Ok (mkDT 2003 12 31 9 14 55).
+Proof. vm_compute. reflexivity. Qed.
+
+(** 2003-12-31T10:14:55.1234Z *)
+Lemma regress_fraction_z :
+  parse_w3cdtf (w3c_full t2003 ++ [46; 49; 50; 51; 52; 90]%N) = Ok t2003.
+Proof. vm_compute. reflexivity. Qed.
+
+(** Behaviour outside the statement, kept on record.  0001-01-01T00:00:00+00:01: the UTC time is
+    before year 1 and reading raises OverflowError.  Text with a code point lxml refuses
+    erases the previous value before raising ValueError.  A final newline is tolerated and
+    Unicode decimal digits are read. *)
+Lemma note_offset_overflow :
+  parse_w3cdtf (w3c_full (mkDT 1 1 1 0 0 0) ++ off_str false 0 1) = Err OverflowErr.
+Proof. vm_compute. reflexivity. Qed.
+
+Lemma note_nonxml_erases :
+  let st := fst (set_prop Title (VStr [97]%N) []) in
+  set_prop Title (VStr [65535]%N) st = ([mkChild (TProp Title) [] false], Err ValueErr).
+Proof. vm_compute. reflexivity. Qed.
+
+Lemma note_newline_and_digits :
+  parse_w3cdtf (pad4 2003 ++ [10]%N) = Ok (mkDT 2003 1 1 0 0 0) /\
+  parse_w3cdtf [1634; 1632; 1632; 1635]%N = Ok (mkDT 2003 1 1 0 0 0).
+Proof. vm_compute. split; reflexivity. Qed.
+
+(** ---- remaining statements in the form used by props/C18.v ---- *)
 
 Lemma calendar_inverse :
   (forall dt, valid_date dt = true -> civil_of_ordinal (ordinal dt) = dt) /\
